@@ -5,9 +5,12 @@
 package web
 
 import (
+	"strconv"
 	"github.com/labstack/echo/v4"
 	"go.uber.org/zap"
 
+	"github.com/mimiro-io/datahub/internal/conf"
+	"github.com/mimiro-io/datahub/internal/security"
 	"github.com/mimiro-io/datahub/internal/server"
 	"github.com/mimiro-io/datahub/internal/service/types"
 )
@@ -18,7 +21,9 @@ func VerifStoreEcho(store *server.Store, dsm *server.DsManager) *echo.Echo {
 	e.HidePort = true
 	log := zap.NewNop().Sugar()
 	e.Use(setupRecovery(log))
-	h := &datasetHandler{datasetManager: dsm, store: store, eventBus: server.NoOpBus(), tokenProviders: nil}
+	cfg := &conf.Config{Logger: log}
+	tps := security.NewTokenProviders(log, security.NewProviderManager(cfg, store, log), nil)
+	h := &datasetHandler{datasetManager: dsm, store: store, eventBus: server.NoOpBus(), tokenProviders: tps}
 	e.GET("/datasets/:dataset/entities", h.getEntitiesHandler)
 	e.GET("/datasets/:dataset/changes", h.getChangesHandler)
 	e.POST("/datasets/:dataset/entities", h.storeEntitiesHandler)
@@ -38,6 +43,15 @@ func VerifDecodeSince(s string) int64 {
 		return -1
 	}
 	return int64(n)
+}
+
+// VerifDecodeSinceStr: the position inside a token as a decimal string ("" if the token does not decode)
+func VerifDecodeSinceStr(s string) string {
+	n, err := decodeSince(s)
+	if err != nil {
+		return ""
+	}
+	return strconv.FormatUint(uint64(n), 10)
 }
 
 func VerifEncodeSince(n int64) string {
